@@ -290,6 +290,25 @@ def _affine(rng: Rng, X):
     return [[a * x + off for x in r] for r in X]
 
 
+def _dynrange(rng: Rng, N, m, zero_col=True):
+    """Dynamic range INSIDE one data set: values = c_j * z_ij with c_j = 2^-k_j spanning 2^-50 .. 2^0 and z_ij small integers.
+    Every value is an exact float64, the exact standard deviation at point j is c_j * std(z_.j): positive at every scale
+    (guards that are exact in the code -- == 0, != 0, > 0 -- are probed just on the positive side), and the standardised
+    values are exactly the z-standardised ones at every j."""
+    ks = sorted(rng.sample(range(1, 50), max(m - 2, 0)) + [0, 50][: min(m, 2)])
+    rng.shuffle(ks)
+    Z = [[rng.randint(-8, 8) for _ in range(m)] for _ in range(N)]
+    for j in range(m):
+        if len({r[j] for r in Z}) == 1:
+            Z[0][j] += 1
+            Z[-1][j] -= 2
+    if zero_col and m >= 4:
+        j = rng.randrange(m)
+        for r in Z:
+            r[j] = Z[0][j]  # one grid point where all curves coincide: exact zero variance
+    return [[Fraction(Z[i][j], 2 ** ks[j]) for j in range(m)] for i in range(N)]
+
+
 def _maybe_int(rng: Rng, X):
     """With probability 0.15: integer-valued curves, stored with an integer dtype."""
     if rng.random() < 0.15:
@@ -393,6 +412,30 @@ def gen_cases(rng: Rng, tier):
         X[-1] = [8 * x + 3 if x != X[0][j] else x for j, x in enumerate(X[-1])]  # an atypical last curve
         X2, _ = _curves(rng, N, m)
         yield dict(kind="dense1", type="dense1", t=[rs(x) for x in _grid(rng, m)], X=_S(X), ck=ck, int=False, layout="C", X2=_S(X2), sized=True, **opts)
+    # structured, in every run: pointwise standard deviations spanning 2^-50 .. 1 within ONE data set (dense 1-D / 2-D, basis, multivariate)
+    for flavour in (["dense1", "dense1", "dense2", "basis1", "multi", "dense1", "basis1", "multi"] if tier == "thorough" else ["dense1", "dense1", "dense2", "basis1", "multi"]):
+        opts = _opts(rng)
+        opts["integ"] = "trapz"
+        N = rng.randint(3, 7)
+        if flavour == "dense1":
+            m = rng.randint(5, 9)
+            X2, _ = _curves(rng, N, m)
+            yield dict(kind="dense1", type="dense1", t=[rs(x) for x in _grid(rng, m)], X=_S(_dynrange(rng, N, m)), ck="dynrange", int=False,
+                       layout=rng.choice(["C", "F"]), X2=_S(X2), **opts)
+        elif flavour == "dense2":
+            m1, m2 = rng.randint(2, 3), rng.randint(3, 4)
+            yield dict(kind="dense2", type="dense2", t1=[rs(x) for x in _grid(rng, m1)], t2=[rs(x) for x in _grid(rng, m2)],
+                       X=_S(_dynrange(rng, N, m1 * m2)), ck="dynrange", int=False, **opts)
+        elif flavour == "basis1":
+            m, K = rng.randint(5, 8), rng.randint(2, 3)
+            Bz = _dynrange(rng, K, m, zero_col=False)  # basis functions b_k(t_j) = c_j * integer
+            C = [[Fraction(rng.randint(-6, 6)) for _ in range(K)] for _ in range(N)]
+            yield dict(kind="basis1", type="basis1", t=[rs(x) for x in _grid(rng, m)], B=_S(Bz), C=_S(C), ck="dynrange", family=None, isn=False, **opts)
+        else:
+            m = rng.randint(5, 8)
+            comps = [dict(type="dense1", t=[rs(x) for x in _grid(rng, m)], X=_S(_dynrange(rng, N, m)), ck="dynrange", int=False, layout="C"),
+                     _dense_comp(rng, N)]
+            yield dict(kind="multi", mix="dd", comps=comps, **opts, ck="dynrange", uw_form="float-array", uw=["0", "4"])
     # structured, in every run: irregular data whose VALUES dictionary is filled in another key order than the ARGVALS dictionary
     for enc, vo in (("points", "reversed"), ("nan", "rotated"), ("points", "rotated")):
         opts = _opts(rng)
@@ -976,6 +1019,17 @@ def _scales(Xf):
     return big, dev
 
 
+def _col_scales(Xf):
+    """Per grid point: (max |x_ij|, exact population variance)."""
+    N, m = len(Xf), len(Xf[0])
+    cb, cv = [], []
+    for j in range(m):
+        mu = sum(r[j] for r in Xf) / N
+        cb.append(float(max(abs(r[j]) for r in Xf)))
+        cv.append(float(sum((r[j] - mu) ** 2 for r in Xf) / N))
+    return cb, cv
+
+
 def _min_pos_var(Xf):
     N, m = len(Xf), len(Xf[0])
     vs = []
@@ -1033,8 +1087,21 @@ def _compare(case, impl, model):
                 continue
             if op == "standardize":
                 # signed squares of standardised values are <= N; rounding of the centring enters relative to the smallest sd
-                sc = N * (1 + 1e-6 * big / math.sqrt(_min_pos_var(Xf))) if case["center"] else big * big / _min_pos_var(Xf)
-                ds += _cmp_mat("standardize", r["v"], pmat(outs[ix["std"]]), sc, sq=True)
+                # signed squares of standardised values are <= N; the rounding of the centring enters relative to the sd OF THAT GRID POINT
+                Q = pmat(outs[ix["std"]])
+                cb, cv = _col_scales(Xf)
+                if len(r["v"]) != len(Q):
+                    ds.append(f"standardize: {len(r['v'])} rows vs model {len(Q)}")
+                else:
+                    for j in range(len(Xf[0])):
+                        if cv[j] == 0:
+                            sc = 1.0
+                        else:
+                            sc = N * (1 + 1e-6 * cb[j] / math.sqrt(cv[j])) if case["center"] else cb[j] * cb[j] / cv[j]
+                        d = _cmp_vec(f"standardize[:, {j}]", [_sq(row[j]) for row in r["v"]], [q[j] for q in Q], sc)
+                        if d:
+                            ds += d
+                            break
             elif (trapz and one) or (not one and trapz and not case["stand"]):
                 wq = F(outs[ix["weight"]]) if outs[ix["weight"]] not in ("error", "bad") else None
                 if wq is None:
@@ -1243,16 +1310,22 @@ def _oracle_grid(case, impl, bad):
                 _entry(case, "standardize"), [cause, "uninitialised"])
             continue
         pv = V.var(axis=0)
+        colbig = [float(max(abs(r[j]) for r in Xf)) for j in range(m)]
         for j in range(m):
-            if var_exact[j] > 0 and abs(pv[j] - 1) > 1e-8 + 1e-13 * big / math.sqrt(float(var_exact[j])):
+            # conditioning of THIS grid point (its own offset against its own spread), whatever the scale of the other points
+            if var_exact[j] > 0 and not abs(pv[j] - 1) <= 1e-8 + 1e-13 * colbig[j] / math.sqrt(float(var_exact[j])):
                 bad("standardize_unit_var", f"pointwise variance after standardising is {pv[j]} at grid point {j} (input variance {float(var_exact[j])})",
                     _entry(case, "standardize"))
                 break
             if var_exact[j] == 0 and np.abs(V[:, j]).max() != 0:
                 bad("standardize_zero_var", f"zero-variance grid point {j} got values {V[:, j].tolist()} ({cause})", _entry(case, "standardize"), [cause, "uninitialised"])
                 break
-        if case["center"] and np.abs(V.mean(axis=0)).max() > 1e-7 * (1 + big / math.sqrt(_min_pos_var(Xf))):
-            bad("standardize_mean_zero", f"pointwise mean after standardising is {np.abs(V.mean(axis=0)).max()}", _entry(case, "standardize"))
+        if case["center"]:
+            mv = np.abs(V.mean(axis=0))
+            for j in range(m):
+                if var_exact[j] > 0 and not mv[j] <= 1e-7 * (1 + colbig[j] / math.sqrt(float(var_exact[j]))):
+                    bad("standardize_mean_zero", f"pointwise mean after standardising is {mv[j]} at grid point {j}", _entry(case, "standardize"))
+                    break
     # ---- rescaling
     r = impl["rescale"]
     if _err(r):
@@ -1467,6 +1540,25 @@ def _oracle_multi(case, impl, bad):
             if not _flat_close(a, b, 1e-12):
                 bad("multivariate_componentwise", f"standardize: component {p} differs from standardising the (centred) component alone", E + "standardize")
                 break
+        # every dense / basis component has unit pointwise variance wherever its curves genuinely differ (the mean may be smoothed away
+        # with the irregular components' options, the variance of the output does not depend on it)
+        for p, (comp, v) in enumerate(zip(case["comps"], s["v"])):
+            if comp["type"] == "irreg" or (comp["type"].startswith("basis") and comp.get("family")):
+                continue
+            Xp = _exact_grid(comp)
+            cb, cv = _col_scales(Xp)
+            V = np.array(v, dtype=float)
+            if V.shape != (len(Xp), len(Xp[0])) or not np.all(np.isfinite(V)):
+                continue
+            pv = V.var(axis=0)
+            for j in range(V.shape[1]):
+                if cv[j] > 0 and not abs(pv[j] - 1) <= 1e-8 + 1e-13 * cb[j] / math.sqrt(cv[j]):
+                    bad("standardize_unit_var", f"multivariate standardize: component {p} has pointwise variance {pv[j]} at grid point {j} "
+                        f"(input variance {cv[j]}, largest variance of the component {max(cv)})", E + "standardize")
+                    break
+            else:
+                continue
+            break
     for key, cause in (("standardize", "natural-heap"), ("standardize_adv", "nan-initialised-buffer")):
         s = impl[key]
         if _err(s):
